@@ -23,8 +23,10 @@ class DeliveryMonitor(Monitor):
     handed, which callbacks fired.  Checks fabrication and multiplicity on
     every delivery (C04 / C06 core)."""
 
-    def __init__(self, check_dup_datagram=False):
+    def __init__(self, check_dup_datagram=False, flag_delivery=True):
         Monitor.__init__(self)
+        # fabricated / at-most-once verdicts belong to C04 and C06; other checks only use the bookkeeping
+        self.flag_delivery = flag_delivery
         self.sent = {"c": collections.Counter(), "s": collections.Counter()}      # by sender
         self.delivered = {"c": collections.Counter(), "s": collections.Counter()}  # by receiver
         self.delivery_log = []  # (receiver, payload, time)
@@ -42,6 +44,8 @@ class DeliveryMonitor(Monitor):
         self.delivered[recv][data] += 1
         self.delivery_log.append((recv, data, w.vt.now))
         n_sent = self.sent[sender].get(data, 0)
+        if not self.flag_delivery:
+            return
         if n_sent == 0:
             self.flag("fabricated", "delivered payload was never sent (len %d)" % len(data),
                       "endpoint %s was handed %d bytes %r... that its peer never sent" % (recv, len(data), data[:24]))
